@@ -201,7 +201,7 @@ EXTRA = {
            ' Non-rotationally-symmetric lenses for spot/fan/encircled energy/operands; clipping apertures in the encircled-energy and pupil-aberration families.',
     'C13': ' One analysis object queried twice must answer the same; a hand-made RealRays bundle leaves the caller\'s (shared) arrays untouched.'
            ' Caller-owned Distribution objects; calls rejected for a missing polarization state leave the lens untouched; polarized intensities in a bundle vs alone; wavefront independent of what the records held.',
-    'C14': ' Bounds of exactly zero are generated; two fixed runs per front end in the quick tier.',
+    'C14': ' Bounds of exactly zero are generated; two fixed runs per front end in the quick tier; one problem over two lenses.',
     'C16': ' A seventh of the lenses are traced once and edited before the judged trace.',
     'C01': ' Histories include set_radius(+-inf) on curved surfaces, ready-made stop surfaces through add_surface(new_surface=), source-first pickup chains and add_wavelength of an existing value as new primary.',
     'C11': ' Pupils cut by physical apertures / central obscurations and pupils or spots with lost rays are decided (dark samples; arriving rays).',
